@@ -287,9 +287,15 @@ def _r4(ctx, m):
     txt = ctx.tree.read(rel)
     ctx.saw(rel)
     import re
-    mt = re.search(r"#define\s+IDX_TGAS\s+(\S+)", txt)
-    ctx.check(bool(mt) and mt.group(1) == "NSPECIES", "R4", "IDX_TGAS", (rel, txt[:mt.start()].count("\n") + 1 if mt else 0),
-              "IDX_TGAS is defined as NSPECIES (row n_spec)", expected="NSPECIES", found=mt.group(1) if mt else None)
+    # what the header prints (sets, value macros and `{{ "text" }}` outputs followed), loops and unknown values as holes
+    flat = "".join(p_[1] if p_[0] == "lit" else "\x00" for p_ in J.printed(ctx.tree, J.flatten(ctx.tree, rel, {}), {}))
+    mt = re.search(r"#[ \t]*define[ \t]+IDX_TGAS[ \t]+([^\s]+)", flat)
+    if not mt or "\x00" in mt.group(1):
+        ctx.unrec("R4", "IDX_TGAS", (rel, 0), "no `#define IDX_TGAS <constant>` found in the macro header")
+    else:
+        val = mt.group(1).strip("()")
+        ctx.check(val == "NSPECIES", "R4", "IDX_TGAS", (rel, flat[:mt.start()].count("\n") + 1),
+                  "IDX_TGAS is defined as NSPECIES (row n_spec)", expected="NSPECIES", found=mt.group(1))
 
 
 def _r7(ctx, m, rhs_sites):
@@ -565,6 +571,9 @@ def _r8(ctx):
             continue
         loops = [(it, off) for it, off in sk.items_in(fname) if it[0] == "for" and J.path(J.unfilter(it[2])[0]) == "ode.fex"]
         key = f"{label}:{fname}:for ode.fex"
+        if not loops and any(x == ("attr", ("name", "ode"), "fex") for it_, off in sk.items_in(fname) for x in _subterms(it_)):
+            ctx.unrec("R8", key, (rel, 0), f"{fname} uses ode.fex, but not in a `for eq in ode.fex` loop: how the equations are pasted is not understood")
+            continue
         if len(loops) != 1:
             ctx.bad("R8", key, (rel, loops[0][0][5] if loops else 0),
                     f"{fname} pastes ode.fex {len(loops)} times, expected exactly once")
